@@ -1,5 +1,5 @@
 import AkVerif.Lemmas.Murmur
-import AkVerif.Gen.MurmurSrc
+import AkVerif.Model.MurmurSrcRun
 /-!
 # C17 — keyed records choose the same partition as the Java client
 
@@ -175,16 +175,6 @@ def expectedProg : List (String × List (String × String)) := [
 /-- **the source of `murmur2` and of the keyed branch of `DefaultPartitioner.__call__` is, statement
     for statement, the program the model transcribes** -/
 theorem c17_source_is_model : Gen.Murmur.prog = expectedProg := by decide +kernel
-
-/-- the executable translation of the source, reassembled from the generated pieces along the
-    control skeleton the translator matched (evaluated by nothing yet; kept for the driver) -/
-def srcLoop (h : Nat) : List Nat → Nat × List Nat
-  | b0 :: b1 :: b2 :: b3 :: rest => srcLoop (Gen.Murmur.mix h b0 b1 b2 b3) rest
-  | tail => (h, tail)
-
-def srcMurmur2 (data : List Nat) : Nat :=
-  let (h, t) := srcLoop (Gen.Murmur.init data.length) data
-  Gen.Murmur.final (Gen.Murmur.tail h t.length (t.getD 0 0) (t.getD 1 0) (t.getD 2 0))
 
 /-- the translated source and the model agree on a key with one whole word and a 3-byte tail
     (a test, labelled as a test) -/
